@@ -50,7 +50,16 @@ def prepare(hist, tmp, tag):
     root = os.path.join(tmp, 'run-' + tag)
     if os.path.exists(root):
         shutil.rmtree(root)
-    rr = L.run_history(hist, root)
+    try:
+        rr = L.run_history(hist, root)
+    except Exception as e:
+        import traceback
+        tb = traceback.extract_tb(e.__traceback__)
+        where = ' <- '.join('%s:%d' % (os.path.basename(f.filename), f.lineno) for f in tb[-3:])
+        ctx.rr = None
+        viol.append(('C01:history-raised', 'executing the history (no crash, no fault) raised %s: %s [%s]'
+                     % (type(e).__name__, str(e)[:160], where), None))
+        return ctx, viol
     ctx.rr = rr
     ctx.magic = rr.init['Data.fs'][:4]
     ctx.oids, ctx.tids = history_oids_tids(hist)
@@ -294,7 +303,7 @@ def check_history(hist, ck, tag, pool_size, rng, tier, limit=None, stop_early=Fa
     ctx, viol = prepare(hist, ck.tmp, tag)
     ctx.tmp = ck.tmp
     res = dict(violations=list(viol), model=None, ncuts=0, nontrivial=0, ctx=ctx)
-    if viol and not hasattr(ctx, 'refs'):
+    if ctx.rr is None or (viol and not hasattr(ctx, 'refs')):
         return res
     if not hasattr(ctx, 'ends'):
         return res
@@ -383,7 +392,7 @@ def main(argv=None):
             ck.count('txn:' + t['kind'])
             for op in t['ops']:
                 ck.count('op:' + op[0])
-        for o in getattr(ctx.rr, 'outcome', []):
+        for o in getattr(ctx.rr, 'outcome', None) or []:
             ck.count('outcome:' + o)
         ck.count('cuts', res['ncuts'])
         nsamp = 0
